@@ -494,6 +494,20 @@ def check_case(ctx, case, pending):
             kind = "missing-error" if missing else ("duplicate-error" if dup and not extra else "unmatched-error")
             fail("null-error-bijection:" + kind, "nulls at non-null positions / raised resolvers and errors are not in bijection",
                  {"expected_paths": [list(p) for p in want], "error_paths": [list(p) for p in got]})
+        # resolver-supplied message and extensions are passed through at the raising field's path
+        by_path = {}
+        for e in resp.get("errors", []):
+            by_path.setdefault(tuple(e.get("path") or ()), []).append(e)
+        for p, _t, _n, o in world.calls:
+            if o[0] == "raised" and len(by_path.get(tuple(p), [])) == 1:
+                e = by_path[tuple(p)][0]
+                want_ext = O.enc(o[2]) if o[2] else None
+                if O.enc(e.get("extensions")) != want_ext:
+                    fail("resolver-extensions-not-passed-through", "extensions of the raised ResolverError do not reach the response error",
+                         {"path": list(p), "raised": want_ext, "error": O.enc(e)})
+                if "message" in e and e["message"] != o[1]:
+                    fail("resolver-message-not-passed-through", "message of the raised ResolverError does not reach the response error",
+                         {"path": list(p), "raised": o[1], "error": O.enc(e)})
         for p in got:
             at = O.data_at(resp["data"], p)
             if at != ("value", None):
@@ -840,6 +854,8 @@ def replay(ctx, data):
         except IndexError:
             return False
         return 1 <= lc[0] <= len(lines) and 1 <= lc[1] <= len(lines[lc[0] - 1]) + 1
+    if "text" not in inp:
+        return True     # a record of a broken obligation / correspondence without a concrete input
     ctx.model_ok = False
     try:
         sigs = run_plain(ctx, inp, [], schemas_for(BASE_SDL))
